@@ -16,6 +16,7 @@ import (
 	govv1 "github.com/cosmos/cosmos-sdk/x/gov/types/v1"
 
 	bcntypes "github.com/unification-com/mainchain/x/beacon/types"
+	entkeeper "github.com/unification-com/mainchain/x/enterprise/keeper"
 	enttypes "github.com/unification-com/mainchain/x/enterprise/types"
 	strtypes "github.com/unification-com/mainchain/x/stream/types"
 	wrktypes "github.com/unification-com/mainchain/x/wrkchain/types"
@@ -27,7 +28,7 @@ import (
 func round5Scenarios() []func() []monFailure {
 	return []func() []monFailure{scenOwnerAfterRolledBackRegistration, scenParamsAfterFailedProposal, scenRecreateOverExpiredStream, scenPartialUnlockWithOtherHolder, scenSignerListWithBlanks,
 		scenRecheckAfterFeeChange, scenReregisterSameMoniker, scenSameBlockCancel, scenManyDenominationsSupply, scenOnlyRegistryMsgsUnlock,
-		scenStartingIdsAcrossExport, scenZeroHeightExportInMintWindow, scenEmptiedAccountSurvivesExport}
+		scenStartingIdsAcrossExport, scenZeroHeightExportInMintWindow, scenEmptiedAccountSurvivesExport, scenFeeRuleOverLayouts, scenQueuesLongerThanAPage}
 }
 
 // C09 / C13: a transaction [register; record on the id it is about to receive; a failing message] is rolled back as a
@@ -811,6 +812,154 @@ func scenEmptiedAccountSurvivesExport() []monFailure {
 		for _, p := range []string{"C04", "C15"} {
 			s.fail(p, 0, fmt.Sprintf("after export + import total spent is %s, the per-account spent entries sum to %s", ts, sumSpent))
 		}
+	}
+	return s.failures
+}
+
+// C06 (round 8): the exact-fee rule over message LAYOUTS.  A registry message may stand before, after or between
+// other messages - bank sends, authz MsgExec wrapping one, two or three harmless messages - and CheckTx must admit the
+// transaction only at the exact sum of the top-level registry messages' fees (registry messages nested in MsgExec are the
+// listed finding and are not used here).
+func scenFeeRuleOverLayouts() []monFailure {
+	s := &scen{c: newChain(fixedCfg()), name: "fee-rule-over-message-layouts"}
+	defer s.c.close()
+	c := s.c
+	s.blockStart(5 * time.Second)
+	s.tx(2, nundCoins(1000), c.mRegRegister(true, 2, "w", "n", "g", "t").m)
+	s.tx(2, nundCoins(1000), c.mRegRegister(false, 2, "b", "n", "", "").m)
+	s.blockEnd()
+	s.blockStart(5 * time.Second)
+	s.blockEnd()
+	send := func() mmsg { return c.mSend(2, 3, nundCoins(1)) }
+	exec := func(n int) mmsg {
+		var in []mmsg
+		for i := 0; i < n; i++ {
+			in = append(in, send())
+		}
+		return c.mExec(2, in)
+	}
+	h := uint64(10)
+	rec := func(wrk bool) mmsg {
+		h++
+		if wrk {
+			return c.mRegRecord(true, 2, 1, h, []string{"x", "", "", "", ""})
+		}
+		return c.mRegRecord(false, 2, 1, uint64(c.now.Unix()), []string{"x"})
+	}
+	type layout struct {
+		what string
+		msgs []mmsg
+		cost int64 // record fee 10 each
+	}
+	for _, wrk := range []bool{true, false} {
+		layouts := []layout{
+			{"[record]", []mmsg{rec(wrk)}, 10},
+			{"[send, record]", []mmsg{send(), rec(wrk)}, 10},
+			{"[record, send]", []mmsg{rec(wrk), send()}, 10},
+			{"[exec{send}, record]", []mmsg{exec(1), rec(wrk)}, 10},
+			{"[exec{send,send}, record]", []mmsg{exec(2), rec(wrk)}, 10},
+			{"[exec{send,send,send}, record]", []mmsg{exec(3), rec(wrk)}, 10},
+			{"[record, exec{send,send}]", []mmsg{rec(wrk), exec(2)}, 10},
+			{"[exec{send,send}, record, record]", []mmsg{exec(2), rec(wrk), rec(wrk)}, 20},
+			{"[send, exec{send,send}, send, record]", []mmsg{send(), exec(2), send(), rec(wrk)}, 10},
+			{"[record, exec{send,send}, record]", []mmsg{rec(wrk), exec(2), rec(wrk)}, 20},
+		}
+		for _, l := range layouts {
+			var msgs []sdk.Msg
+			for _, m := range l.msgs {
+				msgs = append(msgs, m.m)
+			}
+			for _, fee := range []int64{0, 1, l.cost / 2, l.cost - 1, l.cost, l.cost + 1, 2 * l.cost} {
+				ts := txSpec{msgs: msgs, fee: nundCoins(fee), signers: []acct{c.accts[2]}}
+				if fee == 0 {
+					ts.fee = sdk.Coins{}
+				}
+				r, _ := c.check(ts)
+				if r.Code == 0 && fee != l.cost {
+					s.fail("C06", 0, fmt.Sprintf("CheckTx admitted %s (wrkchain=%v) offering %dnund; the registry messages it carries cost %dnund", l.what, wrk, fee, l.cost))
+				}
+				if r.Code != 0 && fee == l.cost && !strings.Contains(r.Log, "authorization not found") {
+					s.fail("C06", 0, fmt.Sprintf("CheckTx refused %s (wrkchain=%v) at the exact fee of %dnund: %s", l.what, wrk, fee, firstLine(r.Log)))
+				}
+			}
+		}
+	}
+	return s.failures
+}
+
+// C03 / C02 (round 8): queues longer than a query page.  120 orders are raised and left undecided; order 121 reaches its
+// quorum: it is accepted at the next BeginBlock and completed (minted, locked) in the one after.  Then 110 of the old
+// orders get their quorum in ONE block: all 110 are accepted together and all 110 are completed in the following block,
+// the supply rising by exactly their sum.
+func scenQueuesLongerThanAPage() []monFailure {
+	s := &scen{c: newChain(fixedCfg()), name: "queues-longer-than-a-page"}
+	defer s.c.close()
+	c := s.c
+	ek := func() entkeeper.Keeper { return c.app.EnterpriseKeeper }
+	status := func(id uint64) enttypes.PurchaseOrderStatus {
+		po, _ := ek().GetPurchaseOrder(c.committedCtx(), id)
+		return po.Status
+	}
+	for b := 0; b < 6; b++ { // 20 per block
+		s.blockStart(5 * time.Second)
+		for i := 0; i < 20; i++ {
+			s.tx(4, nundCoins(0), c.mEntRaise(4, "nund", sdk.NewInt(int64(1000+20*b+i))).m)
+		}
+		s.blockEnd()
+	}
+	s.blockStart(5 * time.Second)
+	s.tx(4, nundCoins(0), c.mEntRaise(4, "nund", sdk.NewInt(777)).m) // order 121
+	s.tx(0, nundCoins(0), c.mEntDecide(0, 121, 2).m)
+	s.tx(1, nundCoins(0), c.mEntDecide(1, 121, 2).m)
+	s.blockEnd()
+	if status(121) != enttypes.StatusRaised || status(120) != enttypes.StatusRaised {
+		return s.failures // set-up did not work
+	}
+	s.blockStart(5 * time.Second)
+	s.blockEnd()
+	if st := status(121); st != enttypes.StatusAccepted {
+		s.fail("C03", 0, fmt.Sprintf("purchase order 121 reached its quorum (2 accepts of 2 needed) behind 120 undecided older orders; after the next BeginBlock it is %s, not accepted", st))
+	}
+	s.blockStart(5 * time.Second)
+	s.blockEnd()
+	if st := status(121); st != enttypes.StatusCompleted {
+		s.fail("C03", 0, fmt.Sprintf("purchase order 121 is %s two blocks after reaching its quorum (behind 120 undecided older orders), not completed", st))
+	}
+	// 110 old orders reach quorum in one block
+	supplyBefore := c.app.BankKeeper.GetSupply(c.committedCtx(), "nund").Amount
+	s.blockStart(5 * time.Second)
+	want := sdk.ZeroInt()
+	for id := uint64(1); id <= 110; id++ {
+		s.tx(0, nundCoins(0), c.mEntDecide(0, id, 2).m)
+		s.tx(1, nundCoins(0), c.mEntDecide(1, id, 2).m)
+		po, _ := ek().GetPurchaseOrder(c.ctx(), id)
+		want = want.Add(po.Amount.Amount)
+	}
+	s.blockEnd()
+	s.blockStart(5 * time.Second)
+	s.blockEnd()
+	notAcc := 0
+	for id := uint64(1); id <= 110; id++ {
+		if status(id) != enttypes.StatusAccepted {
+			notAcc++
+		}
+	}
+	if notAcc > 0 {
+		s.fail("C03", 0, fmt.Sprintf("110 orders reached their quorum in one block; after the next BeginBlock %d of them are not accepted", notAcc))
+	}
+	s.blockStart(5 * time.Second)
+	s.blockEnd()
+	notDone := 0
+	for id := uint64(1); id <= 110; id++ {
+		if status(id) != enttypes.StatusCompleted {
+			notDone++
+		}
+	}
+	if notDone > 0 {
+		s.fail("C03", 0, fmt.Sprintf("110 orders were accepted in one BeginBlock; after the following BeginBlock %d of them are not completed", notDone))
+	}
+	if got := c.app.BankKeeper.GetSupply(c.committedCtx(), "nund").Amount.Sub(supplyBefore); notAcc == 0 && !got.Equal(want) {
+		s.fail("C02", 0, fmt.Sprintf("110 orders summing to %snund were accepted in one BeginBlock; the following BeginBlocks raised the supply by %snund", want, got))
 	}
 	return s.failures
 }
